@@ -75,11 +75,10 @@ func Round(x float64, prec jtypes.OptionalInt) float64 {
 			x = math.Ceil(intermed)
 		}
 	} else {
-		if x < 0 {
-			x = math.Ceil(intermed - 0.5)
-		} else {
-			x = math.Floor(intermed + 0.5)
-		}
+		// Not a tie: round to the nearest integer. Adding 0.5
+		// and truncating is wrong next to a tie, where the sum
+		// itself rounds (0.49999999999999994 + 0.5 == 1).
+		x = math.Round(intermed)
 	}
 
 	if x == 0 {
